@@ -13,6 +13,21 @@ BASE_NOTE = (
 )
 
 CLAIMS = {
+    "C13": dict(
+        text="Lean theorems: the byte string fed to SHA-256 for the input digest is uniquely decodable, so equal "
+             "streams imply equal label, shell flag and equal finite maps of inputs/variables/overrides "
+             "(inp_stream_injective_partial: for configurations without a tracked variable named "
+             "__env_overrides__, the known finding F1, whose witness is the negation theorem); the same for the "
+             "output digest with no extra hypothesis since the F2 fix; both streams are invariant under reordering "
+             "of the ingredients; FileHash.refreshed reports a change whenever a stat field moved and content, "
+             "size or mode differ. Correspondence: sha256(model stream) equals the digest computed by the real "
+             "StepHash on generated configurations; refreshed on real files.",
+        note=BASE_NOTE + "SHA-256 treated as injective on the strings that occur. JSON/cattrs round trip of stored "
+             "hashes is checked by the oracle on generated values only (library code, not modelled). ABA changes "
+             "that keep mtime, size, inode and mode are outside the mechanism (stated as a theorem).",
+        technique="Lean 4 proof (unique parsing by induction) + digest-level differential correspondence",
+        design="9/C13",
+    ),
     "C18": dict(
         text="Lean theorems: the LIKE/ESCAPE clause of prefix_clause, the dir_range_upper half-open range and the "
              "substr test are byte-exact prefix tests for all strings; one theorem per call site composes them; the "
